@@ -7,7 +7,7 @@ from props._hist import History, Fail, result_fail, sig_from_rec, std_replay
 PROP = "C07"
 LEVEL = "other"
 SELFTEST_PARTS = ("num",)
-WALL_BUDGET = {"quick": 1200, "thorough": 9000}
+WALL_BUDGET = {"quick": 3600, "thorough": 14400}
 OPS = ["create_b", "write_a", "delete_a", "rename_a_b", "mkdir_d", "rmdir_d", "move_a_d", "rendir_d_e", "mkdir_d_s", "create_d_a"]
 
 
